@@ -98,7 +98,7 @@ Example ex_run :
   fst (run N ex_next (fun s => (N.even s, (s + 1)%N)) (fun n => n) 7%N
          [CSetRandom (seed_term (-1)); CRandInt (Int (2 ^ 70)) (Int (2 ^ 70 + 10)) (Var 0); COther; CRandom (Var 0);
           CRandInt (Int 5) (Int 5) (Var 0); CRandInt (Var 1) (Int 5) (Var 0); CRandInt (Atom [102%N]) (Int 5) (Var 0); CSetRandom (Atom [102%N])])
-  = [OTrue; OInt (2 ^ 70 + 5); OTrue; OFlt 576460752303423; OFail; OErr EInst; OErr (ETypeInt (Atom [102%N])); OFail].
+  = [OTrue; OInt (2 ^ 70 + 5); OTrue; OFlt 993209758122530; OFail; OErr EInst; OErr (ETypeInt (Atom [102%N])); OFail].
 Proof. vm_compute. reflexivity. Qed.
 Example ex_float_decode : float_k50 4602678819172646912 = Some (2 ^ 49)%N /\ float_k50 4607182418800017408 = None /\ float_k50 0 = Some 0%N.
 Proof. vm_compute. repeat split. Qed.
